@@ -72,6 +72,31 @@ func (f *frame) resolveType(text string, pkg *types.Package) types.Type {
 	return t
 }
 
+// tryResolveType: text names a type (and not a contract variable in scope)
+func (f *frame) tryResolveType(text string, pkg *types.Package) (t types.Type, ok bool) {
+	ex, err := parser.ParseExpr(text)
+	if err != nil {
+		return nil, false
+	}
+	switch x := ex.(type) {
+	case *ast.Ident:
+		if obj := pkg.Scope().Lookup(x.Name); obj != nil {
+			if tn, ok := obj.(*types.TypeName); ok {
+				return tn.Type(), true
+			}
+		}
+	case *ast.SelectorExpr:
+		if id, ok := x.X.(*ast.Ident); ok {
+			if p := f.findImport(pkg, id.Name); p != nil {
+				if tn, ok := p.Scope().Lookup(x.Sel.Name).(*types.TypeName); ok {
+					return tn.Type(), true
+				}
+			}
+		}
+	}
+	return nil, false
+}
+
 func (f *frame) typeOfAST(ex ast.Expr, pkg *types.Package, text string) types.Type {
 	switch x := ex.(type) {
 	case *ast.Ident:
@@ -147,6 +172,13 @@ func (f *frame) trans(e CE, env *Env) TV {
 	case *CCall:
 		return f.transCall(x, env)
 	case *CUn:
+		if x.Op == "*" {
+			// *T as the operand of typeof(x) == *T
+			_, isVar := env.vars[x.X.String()]
+			if ty, ok := f.tryResolveType(x.X.String(), env.pkg); ok && !isVar {
+				return TV{T: fmt.Sprint(vc.tagOf(types.NewPointer(ty))), S: "Int", Lit: true}
+			}
+		}
 		v := f.trans(x.X, env)
 		switch x.Op {
 		case "!":
